@@ -168,6 +168,54 @@ fn accept<B: Fld, E: FieldElement<BaseField = B>, H: ElementHasher<BaseField = B
     st.sample(tag, || desc("sample", String::new()));
 }
 
+/// degree bounds that are not of the form 2^k - 1: the verifier derives the domain from
+/// next_power_of_two(bound + 1) and documents DegreeTruncation for bounds the schedule cannot divide,
+/// so every bound m - 1 with m a multiple of folding^layers is a supported one and an honest proof for
+/// a polynomial of degree <= m - 1 must be accepted
+fn accept_nonpow2<B: Fld, E: FieldElement<BaseField = B>, H: ElementHasher<BaseField = B>>(rng: &mut Rng, st: &mut State, i: u64, tag: &str) {
+    let Some(pr) = gen_params(rng, i + 1) else {
+        return;
+    };
+    let n = 1usize << pr.log_n;
+    let domain = n * pr.blowup;
+    let opts = FriOptions::new(pr.blowup, pr.fold, pr.rem);
+    let layers = opts.num_fri_layers(domain);
+    let unit = pr.fold.pow(layers as u32);
+    // multiples of folding^layers in (n/2, n)
+    let cands: Vec<usize> = (1..).map(|k| k * unit).take_while(|&m| m < n).filter(|&m| m > n / 2).collect();
+    if cands.is_empty() {
+        st.count("nonpow2.no_supported_bound_for_schedule");
+        return;
+    }
+    let m = cands[rng.usize(cands.len())];
+    let (mut p, pkind) = poly::<B, E>(rng, m);
+    p.resize(n, E::ZERO);
+    let evals = frih::evaluate::<B, E>(&p, domain);
+    let (pos, qkind) = positions(rng, domain, pr.fold);
+    let mut prover = FriProver::<B, E, frih::Chan<E, H>, H>::new(opts.clone());
+    let desc = |what: &str, err: String| {
+        J::obj(vec![("config", J::s(tag)), ("blowup", J::i(pr.blowup)), ("folding", J::i(pr.fold)), ("remainder_max_degree", J::i(pr.rem)), ("degree_bound", J::i(m - 1)), ("domain", J::i(domain)), ("layers", J::i(layers)), ("polynomial", J::s(pkind)), ("positions", J::s(qkind)), ("what", J::s(what)), ("error", J::s(err))])
+    };
+    let inst = match catch(|| frih::prove::<B, E, H>(&mut prover, evals.clone(), &opts, pos.len().max(1).min(domain - 1), Some(pos.clone()))) {
+        Ok(x) => x,
+        Err(pi) => {
+            st.violation(format!("prover-panic:{}", pi.sig), desc("prover panic", pi.msg));
+            return;
+        },
+    };
+    let queried: Vec<E> = inst.positions.iter().map(|&p| evals[p]).collect();
+    match catch(|| frih::verify::<B, E, H>(inst.proof.clone(), inst.commitments.clone(), &queried, &inst.positions, m - 1, domain, &opts)) {
+        Ok(Ok(())) => {},
+        Ok(Err(e)) => st.violation("honest-proof-rejected:bound-not-2^k-1", desc("direct", e)),
+        Err(pi) => st.violation(format!("verifier-panic:{}", pi.sig), desc("direct", pi.msg)),
+    }
+    st.evals += 1;
+    st.count("nonpow2.accepted_or_checked");
+    st.count(&format!("nonpow2.layers_{}", layers.min(3)));
+    st.distinct.insert(wfv::fnv(format!("np2{tag}{pr:?}{m}{pkind}{qkind}{i}").as_bytes()));
+    st.sample("nonpow2", || desc("sample", String::new()));
+}
+
 /// folding identity in the coefficient domain
 fn drp<B: Fld, E: FieldElement<BaseField = B>, const N: usize>(rng: &mut Rng, st: &mut State) {
     let log_d = rng.range((N.ilog2() + 1) as usize, 8);
@@ -251,6 +299,7 @@ fn position_folding(rng: &mut Rng, st: &mut State) {
 
 fn drive<B: Fld, E: FieldElement<BaseField = B>, H: ElementHasher<BaseField = B>>(run: &Run, tag: &str, n: u64) {
     run.par(tag, n, |i, rng, st| accept::<B, E, H>(rng, st, i, tag));
+    run.par(&format!("{tag}/bound-not-2^k-1"), n / 2, |i, rng, st| accept_nonpow2::<B, E, H>(rng, st, i, tag));
 }
 
 fn main() {
@@ -288,12 +337,12 @@ fn main() {
         position_folding(rng, st);
         st.distinct.insert(wfv::fnv(format!("fp{i}").as_bytes()));
     });
-    let mut require = vec![("degree_bound_0_or_1".to_string(), 20), ("fold_positions.cases".to_string(), 1000)];
+    let mut require = vec![("degree_bound_0_or_1".to_string(), 20), ("fold_positions.cases".to_string(), 1000), ("nonpow2.accepted_or_checked".to_string(), 100), ("nonpow2.layers_1".to_string(), 10), ("nonpow2.layers_2".to_string(), 10)];
     for k in ["poly.degree-0", "poly.degree-1", "poly.degree-bound-minus-1", "poly.degree-exactly-bound", "poly.random", "positions.one-position", "positions.255-or-max-positions-with-duplicates", "positions.colliding-after-folding", "positions.repeated-position", "folding.2", "folding.4", "folding.8", "folding.16", "accepted_or_checked.layers_0", "accepted_or_checked.layers_1", "accepted_or_checked.layers_3"] {
         require.push((k.to_string(), 10));
     }
     run.finish(Finish {
-        rule: "instances: blowup 2..128 x folding 2/4/8/16 x remainder max degree 0..255 x polynomial sizes 2^0..2^10 (degree bounds 0 and 1 forced into every 9th case) with domain 8..2^13 and a well-formed schedule; polynomials of degree 0, 1, bound-1, exactly bound, zero, random; position lists: single, up to 255 with duplicates, colliding after folding, repeated, random; prover instance reused for a second proof; verification directly and after FriProof byte round trip; 8 field/extension/hasher configurations. Folding identity: apply_drp<2/4/8/16> on direct evaluations vs g(y)=sum_k alpha^k f_k(y) evaluated on the folded coset; fold_positions / map_positions_to_indexes / num_fri_layers vs closed forms. distinct = distinct generated instance".into(),
+        rule: "instances: blowup 2..128 x folding 2/4/8/16 x remainder max degree 0..255 x polynomial sizes 2^0..2^10 (degree bounds 0 and 1 forced into every 9th case) with domain 8..2^13 and a well-formed schedule; polynomials of degree 0, 1, bound-1, exactly bound, zero, random; position lists: single, up to 255 with duplicates, colliding after folding, repeated, random; prover instance reused for a second proof; degree bounds m-1 with m a multiple of folding^layers strictly between n/2 and n (not of the form 2^k-1); verification directly and after FriProof byte round trip; 8 field/extension/hasher configurations. Folding identity: apply_drp<2/4/8/16> on direct evaluations vs g(y)=sum_k alpha^k f_k(y) evaluated on the folded coset; fold_positions / map_positions_to_indexes / num_fri_layers vs closed forms. distinct = distinct generated instance".into(),
         assumptions: vec!["evaluations of the test polynomials are produced with the library FFT (C09); the folding identity uses direct evaluation instead".into(), "ill-formed schedules (a folded layer with fewer than 2 rows, or no remainder coefficient) are not generated".into()],
         exhaustive: false,
         require,
